@@ -285,6 +285,10 @@ func (l *Layouter) Leaves(t types.Type) []Leaf {
 	case *types.Alias:
 		out = l.Leaves(types.Unalias(x))
 	case *types.Named:
+		if n := adtNameOf(x); n != "" {
+			out = []Leaf{{"", Sort(n), t}}
+			break
+		}
 		out = l.Leaves(x.Underlying())
 		if len(out) == 1 {
 			// keep the named type so signedness etc. come from the underlying basic
